@@ -172,12 +172,17 @@ def registry(seed):
             for init in (True, False):
                 add("ellswift.xdh", f"{ell.hex()[:8]}|{d}|{init}", lambda ell=ell, d=d, init=init: ellswift.xdh(ELL[2], ell, d, initiating=init) if init else ellswift.xdh(ell, ELL[2], d, initiating=init))
     # ---- taproot
-    for ik in (good, goodu, xq.to_bytes(32, "big"), ENC[9], ENC[10], ENC[6], b"\x02" + bytes(32), Qk, xq, offx):
+    for ik in (good, goodu, xq.to_bytes(32, "big"), ENC[9], ENC[10], ENC[6], b"\x02" + bytes(32), Qk, xq, offx,
+               _sec(Podd, False), Podd, (Podd[0], p - Podd[1]), _sec((Podd[0], p - Podd[1]), False), _sec(Podd, False).hex()):  # every spelling of an odd-y and an even-y key
         for tree in (None, [[(0xC0, ["OP_1"])]], [(0xC0, ["OP_1"])], [[(0xC0, ["OP_1"])], [(0xC0, ["OP_2"])]]):
             add("taproot.output_pubkey", f"{_d(ik)}|{repr(tree)[:14]}", lambda ik=ik, tree=tree: taproot.output_pubkey(ik, tree))
     for q in (1, 2, n - 1, 0, n, odd, gen):
         for tree in (None, [[(0xC0, ["OP_1"])]], [(0xC0, ["OP_1"])]):
             add("taproot.output_prvkey", f"{q}|{repr(tree)[:14]}", lambda q=q, tree=tree: taproot.output_prvkey(q, tree))
+    for ik in (good, goodu, _sec(Podd, True), _sec(Podd, False), Podd, (Podd[0], p - Podd[1]), Qk):
+        for tree in ([(0xC0, ["OP_1"])], [[(0xC0, ["OP_1"])], [(0xC0, ["OP_2"])]]):
+            for li in (0, 1):
+                add("taproot.input_script_sig", f"{_d(ik)}|{len(tree)}|{li}", lambda ik=ik, tree=tree, li=li: taproot.input_script_sig(ik, tree, li))
     qk, par = _with_py(lambda: taproot.output_pubkey(xq.to_bytes(32, "big"), None))
     for qq in (qk, offx.to_bytes(32, "big"), bytes(32), qk[:-1], p.to_bytes(32, "big")):
         for cb in (bytes([0xC0 + par]) + xq.to_bytes(32, "big"), bytes([0xC1 - par]) + xq.to_bytes(32, "big"), bytes([0xC0]) + offx.to_bytes(32, "big"),
